@@ -4,6 +4,7 @@ Same op lines and answers as `DrvCLFees`; new: `incentive <id> <denom> <amount> 
 uptime records, claimable incentives, incentive balances); `reset` takes two more optional arguments (incentive scaling
 factor, number of authorised uptimes). -/
 import OsmoVerif.Model.CLInc
+import OsmoVerif.Model.CLFullGenesis
 import OsmoVerif.Model.DrvCLFees
 namespace OsmoVerif.CLInc
 open OsmoVerif.CL OsmoVerif.CLPool OsmoVerif.CLFees
@@ -109,10 +110,17 @@ def stepCLInc (s : Full) (op : String) (args : List String) : Full × String :=
   | "fdump", [] => (s, dumpFees s.fees)
   | "est", _ => let r := stepCLPool s.fees.pool op args; (s, r.2)
   | "dump", [] => (s, dumpPool s.fees.pool)
-  -- genesis export → import of the module (Model/CLPoolGenesis): identity on the pool component (proved:
-  -- `Props.C19.cl_export_import_eq`); accumulators, trackers, records and incentive records are part of the genesis
-  | "exportimport", [] => let r := stepCLPool s.fees.pool op args; ({ s with fees := { s.fees with pool := r.1 } }, r.2)
+  -- genesis export → import of the module over the WHOLE layered state (Model/CLFullGenesis: pool, ticks with growth-outside and
+  -- uptime trackers, spread-reward and uptime accumulators with the records of the live positions, incentive records, join times);
+  -- `panic` = ExportGenesis finds no accumulator record for a live position.  Props/C19CL.
+  | "exportimport", [] =>
+    match exportImportFull s with
+    | some s' => (s', "ok")
+    | none => (s, "panic")
   | "nextid", [] => let r := stepCLPool s.fees.pool op args; (s, r.2)
+  -- F41: what `GetFullRangeLiquidityInPool` answers on a node imported NOW (Σ liquidity of the full-range positions); the running
+  -- chain's record (it follows `SetPosition`) lives in the layered state `FullG` of Model/CLFullGenesis, not in this engine's state
+  | "fullrange-imported", [] => (s, s!"ok {sumFullRange (sortPosById s.fees.pool.positions)}")
   | _, _ => (s, "bad-op")
 
 end OsmoVerif.CLInc
